@@ -1014,6 +1014,8 @@ class SymRec(object):
         base = fdt.base
         tgt = self._fields[name]
         if tgt.size == 0 and _np.size(val) == 0:
+            # nothing to store, but numpy still applies its broadcasting rule: (0,) into (0, 3) is a ValueError
+            _np.broadcast_to(_np.empty(_np.shape(val)), tgt.shape)
             return
         if isinstance(val, _np.ndarray) or isinstance(val, (list, tuple)):
             v = val if isinstance(val, _np.ndarray) else _build_object(list(val))
